@@ -19,10 +19,10 @@ open MediaSan MediaSan.Mp4 MediaSan.Generated
 /-- When a rewrite is planned, (metadata length incl. padding) − media offset = the displacement applied
     (0 when none), padding is 0 or a whole `free` box of 8 … 2^32−9 bytes, and a displacement fits i32 and
     is never combined with padding. -/
-theorem C01_plan_shift (mp ml off pad : Nat) (disp : Option Int)
-    (h : planRewrite mp ml off = .ok (pad, disp)) :
+theorem C01_plan_shift (ml off pad : Nat) (disp : Option Int)
+    (h : planRewrite ml off = .ok (pad, disp)) :
     ((ml + pad : Nat) : Int) - (off : Int) = disp.getD 0 ∧
-    (pad = 0 ∨ (8 ≤ pad ∧ pad ≤ 4294967287 ∧ pad ≤ mp)) ∧
+    (pad = 0 ∨ (8 ≤ pad ∧ pad ≤ 4294967287 ∧ pad ≤ ml)) ∧
     (∀ d, disp = some d → pad = 0 ∧ d ≠ 0 ∧ -2147483648 ≤ d ∧ d ≤ 2147483647) := by
   unfold planRewrite at h
   dsimp only at h
@@ -63,11 +63,11 @@ theorem C01_plan_shift (mp ml off pad : Nat) (disp : Option Int)
       refine ⟨rfl, by omega, by omega, by omega⟩
     · simp at h
 
-/-- The rewrite is refused (UnsupportedBoxLayout) exactly when no `free` box fits the gap (or it would exceed the
-    configured metadata limit `mp`) and the shift does not fit a signed 32-bit value. -/
-theorem C01_plan_refused (mp ml off : Nat) :
-    (∃ e, planRewrite mp ml off = .error e) ↔
-      ((ml ≤ off ∧ 2147483647 < off - ml ∧ (4294967287 < off - ml ∨ mp < off - ml)) ∨
+/-- The rewrite is refused (UnsupportedBoxLayout) exactly when no `free` box fits the gap (or it would be larger than
+    the metadata itself) and the shift does not fit a signed 32-bit value. -/
+theorem C01_plan_refused (ml off : Nat) :
+    (∃ e, planRewrite ml off = .error e) ↔
+      ((ml ≤ off ∧ 2147483647 < off - ml ∧ (4294967287 < off - ml ∨ ml < off - ml)) ∨
        (off < ml ∧ 2147483647 < ml - off)) := by
   unfold planRewrite
   dsimp only
@@ -148,12 +148,13 @@ theorem C01_callsite (n : Nat) (v : BitVec n) (d : BitVec n) :
     symm; rw [decide_eq_true_iff]; omega
 
 -- Non-vacuity: concrete evaluations of the plan and of a table rewrite.
-example : planRewrite 1000 100 95 = .ok (0, some 5) := by decide                 -- forward move
-example : planRewrite 1000 100 105 = .ok (0, some (-5)) := by decide             -- gap 5: no free box fits
-example : planRewrite 1000 100 108 = .ok (8, none) := by decide                  -- gap 8: padded
-example : planRewrite 1000 100 100 = .ok (0, none) := by decide
-example : planRewrite 50 100 200 = .ok (0, some (-100)) := by decide           -- gap 100 above the limit 50: displaced, not padded
-example : planRewrite 1000 100 (100 + 4294967288) = .error .unsupportedBoxLayout := by decide
+example : planRewrite 100 95 = .ok (0, some 5) := by decide                 -- forward move
+example : planRewrite 100 105 = .ok (0, some (-5)) := by decide             -- gap 5: no free box fits
+example : planRewrite 100 108 = .ok (8, none) := by decide                  -- gap 8: padded
+example : planRewrite 100 100 = .ok (0, none) := by decide
+example : planRewrite 100 201 = .ok (0, some (-101)) := by decide           -- gap 101 larger than the metadata (100): displaced, not padded
+example : planRewrite 100 200 = .ok (100, none) := by decide
+example : planRewrite 100 (100 + 4294967288) = .error .unsupportedBoxLayout := by decide
 example : displaceCo (-5) ⟨4, 2, [0,0,0,5, 0,0,1,0]⟩ = .ok (⟨4, 2, [0,0,0,0, 0,0,0,251]⟩, ()) := by decide
 example : displaceCo (-6) ⟨4, 2, [0,0,0,5, 0,0,1,0]⟩ = .err .invalidInput := by decide
 example : displaceCo 1 ⟨4, 1, [255,255,255,255]⟩ = .err .invalidInput := by decide
